@@ -4,7 +4,7 @@
                         a no-op under concrete replay.
 * `build(text, ...)`    write the script to a per-process temp file and run the REAL
                         `ioflo.base.building.Builder.build` on it, optionally under a CPU-time
-                        limit (SIGPROF / ITIMER_PROF, independent of the engine's SIGALRM wall
+                        limit (SIGVTALRM / ITIMER_VIRTUAL, independent of the engine's SIGALRM wall
                         backstop).  Returns a `Built` record; never raises for script errors.
 * `dump_house(house)`   plain-data serialisation of everything the builder produced (taskers,
                         framers, frames, links, acts with actor / inits / ioinits / parms /
@@ -169,9 +169,21 @@ class Built(object):
         return str(m if m is not None else self.exc)
 
 
-def build(text, cpu_limit=None, name="script.flo"):
-    """Build `text` with the real Builder.  `cpu_limit` (seconds of process CPU time) bounds the
-    call: on expiry the build is interrupted and `.hung` is set."""
+def build(text, cpu_limit=None, name="script.flo", confirm=True):
+    """Build `text` with the real Builder.  `cpu_limit` (seconds of user-mode CPU time of this
+    process, ITIMER_VIRTUAL: independent of machine load and of page-fault / system time) bounds
+    the call: on expiry the build is interrupted.  An interrupted build is repeated once from
+    scratch and only reported as `.hung` when the repetition is interrupted too (a garbage
+    collection of the large CrossHair heap can eat a good part of a short limit once)."""
+    out = _build(text, cpu_limit, name)
+    if out.hung and confirm:
+        again = _build(text, cpu_limit, name)
+        if not again.hung:
+            return again
+    return out
+
+
+def _build(text, cpu_limit, name):
     out = Built()
     out.text = text
     path = write_file(name, text)
@@ -179,12 +191,12 @@ def build(text, cpu_limit=None, name="script.flo"):
     out.builder = b
     old = None
     if cpu_limit:
-        old = signal.signal(signal.SIGPROF, _on_prof)
+        old = signal.signal(signal.SIGVTALRM, _on_prof)
         _ARMED[0] = True
         # periodic: an exception raised by the handler while the interpreter is inside a __del__ /
         # weakref callback is swallowed ("Exception ignored in ..."), so the timer keeps firing every
         # 20 ms until the interruption lands in ordinary code
-        signal.setitimer(signal.ITIMER_PROF, cpu_limit, 0.02)
+        signal.setitimer(signal.ITIMER_VIRTUAL, cpu_limit, 0.02)
     try:
         try:
             try:
@@ -192,7 +204,7 @@ def build(text, cpu_limit=None, name="script.flo"):
             finally:
                 _ARMED[0] = False
                 if cpu_limit:
-                    signal.setitimer(signal.ITIMER_PROF, 0)
+                    signal.setitimer(signal.ITIMER_VIRTUAL, 0)
         except BuildHang as e:
             out.hung = True
             out.ok = None
@@ -211,8 +223,8 @@ def build(text, cpu_limit=None, name="script.flo"):
     finally:
         _ARMED[0] = False
         if cpu_limit:
-            signal.setitimer(signal.ITIMER_PROF, 0)
-            signal.signal(signal.SIGPROF, old if old is not None else signal.SIG_DFL)
+            signal.setitimer(signal.ITIMER_VIRTUAL, 0)
+            signal.signal(signal.SIGVTALRM, old if old is not None else signal.SIG_DFL)
         try:   # the builder leaves the script open when an exception escapes it
             if b.currentFile is not None and not b.currentFile.closed:
                 b.currentFile.close()
